@@ -109,11 +109,6 @@ theorem splitOn_append_sep {sep : Nat} {p : Str} (rest : Str) (h : sep ∉ p) :
     simp [Ne.symm h.1]
 
 /-- joining pieces that do not contain the separator and splitting again gives the pieces back -/
-def joinSep (sep : Nat) : List Str → Str
-  | [] => []
-  | [p] => p
-  | p :: q :: rest => p ++ sep :: joinSep sep (q :: rest)
-
 theorem splitOn_joinSep {sep : Nat} {ps : List Str} (hne : ps ≠ []) (h : ∀ p ∈ ps, sep ∉ p) :
     splitOn sep (joinSep sep ps) = ps := by
   induction ps with
